@@ -1,6 +1,7 @@
 package main
 
 import (
+	"go/token"
 	"go/types"
 	"strings"
 
@@ -32,6 +33,7 @@ func c02(c *Ctx) {
 	r.Floor("C02.R3", 3)
 	r.Floor("C02.R4", 3)
 	r.Floor("C02.R5", 5)
+	r.Floor("C02.R6", 1)
 	gt := guardType(p)
 	inst := patchInstaller(p)
 	if gt == nil || inst == nil {
@@ -103,6 +105,78 @@ func c02(c *Ctx) {
 	if pg := p.NamedType("", "patchMockGuard"); pg != nil {
 		cf := methodOf(p, pg, "Cancel")
 		r.Check(cf != nil && rr[cf], "C02.R5", "patch guard Cancel reaches restore", p.Pos(pg.Obj().Pos()), "Cancel → restore write", "cancelling a patch-based mock no longer reaches the write-back of the original bytes")
+	}
+
+	// ---- R6 every path of a mocker's own Cancel reaches its guard's Cancel (unless there is no guard)
+	if mockerT != nil {
+		mi := mockerT.Underlying().(*types.Interface)
+		mg := p.NamedType("", "MockGuard")
+		seenC := map[*ssa.Function]bool{}
+		for _, n := range namedTypesOf(p.Pkg("").Types) {
+			if _, isI := n.Underlying().(*types.Interface); isI || !implementsIface(n, mi) || mg == nil {
+				continue
+			}
+			cf := methodOf(p, n, "Cancel")
+			if cf == nil || cf.Blocks == nil || seenC[cf] {
+				continue
+			}
+			seenC[cf] = true
+			var inv []ssa.Instruction
+			var guardFld *types.Var
+			eachInstr(cf, func(i ssa.Instruction) {
+				if c := callCommon(i); c != nil && c.IsInvoke() && c.Method.Name() == "Cancel" && types.Identical(c.Value.Type(), mg) {
+					inv = append(inv, i)
+					if _, fv, ok := fieldRef(c.Value); ok {
+						guardFld = fv
+					}
+				}
+			})
+			if len(inv) == 0 {
+				continue
+			}
+			okAll := true
+			for _, ret := range returnsOf(cf) {
+				passed := passedBefore(cf, ret, func(i ssa.Instruction) bool {
+					for _, x := range inv {
+						if x == i {
+							return true
+						}
+					}
+					return false
+				}, nil)
+				if passed {
+					continue
+				}
+				// allowed only when the guard is nil on this path
+				isNil, known := false, false
+				if guardFld != nil {
+					isNil, known = nilGuardOnField(ret.Block(), guardFld)
+					if !known {
+						// the return may sit after the join of `if guard != nil { guard.Cancel() }`: check per predecessor path
+						isNil, known = true, true
+						for _, pr := range ret.Block().Preds {
+							okP := false
+							if nn, k := nilGuardOnFieldEdge(pr, ret.Block(), guardFld); k && nn {
+								okP = true
+							}
+							for _, x := range inv {
+								if x.Block() == pr || x.Block().Dominates(pr) {
+									okP = true
+								}
+							}
+							if !okP {
+								isNil, known = false, false
+							}
+						}
+					}
+				}
+				if !(known && isNil) {
+					okAll = false
+				}
+			}
+			r.Check(okAll, "C02.R6", shortName(cf)+" always cancels its guard", p.Pos(cf.Pos()), "every path reaches guard.Cancel() unless guard is nil",
+				"Cancel can return without cancelling its guard although one exists (e.g. an early return on an 'already cancelled' flag): a mock re-applied through a retained handle after a Cancel is never removed again, Reset leaves the entry jump in place")
+		}
 	}
 
 	// ---- R4 guard fields written once, in the constructor, from the patch's fields
@@ -392,4 +466,26 @@ func rangesAndCancels(fn *ssa.Function, fld *types.Var) bool {
 		}
 	})
 	return found
+}
+
+// nilGuardOnFieldEdge: is field fld known nil on the edge pred→succ ?
+func nilGuardOnFieldEdge(pred, succ *ssa.BasicBlock, fld *types.Var) (isNil bool, known bool) {
+	for _, g := range knownAtEdge(pred, succ) {
+		bo, ok := g.Cond.(*ssa.BinOp)
+		if !ok || (bo.Op != token.EQL && bo.Op != token.NEQ) {
+			continue
+		}
+		var other ssa.Value
+		if isNilConst(bo.Y) {
+			other = bo.X
+		} else if isNilConst(bo.X) {
+			other = bo.Y
+		} else {
+			continue
+		}
+		if _, fv, ok := fieldRef(other); ok && fv == fld {
+			return (bo.Op == token.EQL) == g.Pol, true
+		}
+	}
+	return false, false
 }
